@@ -751,11 +751,11 @@ _BRACKET = _re.compile(r"\[[0-9]+\]$")
 def classify_cable_names(cab_obs, cab_w, got):
     """The re-read cable names differ from the written ones.  Known reader conventions that rename
     cables (each a pinned finding with its own sub-domain); anything else is a new failure."""
-    if any(w > 1 and o["name"].startswith("\\") for o, w in zip(cab_obs, cab_w)):
+    if any((w > 1 or o.get("bits")) and o["name"].startswith("\\") for o, w in zip(cab_obs, cab_w)):
         # the reader treats a name starting with a backslash as an escaped Verilog identifier and does
         # not split the `[index]` off: the bits of such a bus come back as separate scalar cables
         return "compose_parse.backslash-bus-cable"
-    if any(w > 1 and o["ident"] != o["name"] for o, w in zip(cab_obs, cab_w)):
+    if any((w > 1 or o.get("bits")) and o["ident"] != o["name"] for o, w in zip(cab_obs, cab_w)):
         return "compose_parse.renamed-bus-cable"             # fixed by 4c30cd0: must not come back
     if any(w == 1 and _BRACKET.search(o["name"]) for o, w in zip(cab_obs, cab_w)):
         return "compose_parse.cable-name-bracket-index"      # scalar net `x[3]` re-read as bit 3 of `x`
@@ -1052,9 +1052,9 @@ class Runner:
                     sig = "compose_parse.bus-bit-identifier-too-long"
                 elif rr["raised"] == "index" and any(o["name"].endswith("[") for o in cab_obs):
                     sig = "compose_parse.cable-name-ends-with-open-bracket"
-                elif any(w > 1 and o["name"].startswith("\\") for o, w in zip(cab_obs, cab_w)):
+                elif any((w > 1 or o.get("bits")) and o["name"].startswith("\\") for o, w in zip(cab_obs, cab_w)):
                     sig = "compose_parse.backslash-bus-cable"
-                elif any(w > 1 and o["ident"] != o["name"] for o, w in zip(cab_obs, cab_w)):
+                elif any((w > 1 or o.get("bits")) and o["ident"] != o["name"] for o, w in zip(cab_obs, cab_w)):
                     sig = "compose_parse.renamed-bus-cable"
                 else:
                     sig = "compose_parse.reader-rejects-written-file"
@@ -1398,14 +1398,14 @@ def run(ctx):
         return
     corpus = load_corpus()
     nsh = 16
-    per = ctx.scale(350, 6000)
+    per = ctx.scale(300, 6000)
     # wall-clock plan (measured from the start of the check): generated cases, then the enumeration
-    deadline = ctx.t0 + ctx.scale(62, 800)
+    deadline = ctx.t0 + ctx.scale(40, 800)
     args = []
     for i in range(nsh):
         args.append((ctx.seed, i, ctx.tier, per, corpus if i == 0 else [], deadline))
     run_shards(ctx, shard, args)
-    run_shards(ctx, exhaustive_shard, [(ctx.seed, i, nsh, ctx.tier, ctx.t0 + ctx.scale(84, 1050)) for i in range(nsh)])
+    run_shards(ctx, exhaustive_shard, [(ctx.seed, i, nsh, ctx.tier, ctx.t0 + ctx.scale(52, 1050)) for i in range(nsh)])
     if ctx.tier == "thorough":
         lean.leanchecker(ctx, MODULES)
     # step 3 of the contract: divergence without a failing input -> search around it
